@@ -127,9 +127,12 @@ def run(tier, seed):
     rep = Report(PID, tier, seed, "proof")
     po = proof_obligations("WowVerif.Thm.C01", ["wowdrv"])
     add_proof_failures(rep, po)
-    po_b = proof_obligations("WowVerif.Thm.C01b")      # the per-enumerator normal form is the same codec; what `progeq` means
-    add_proof_failures(rep, po_b)
-    po = dict(po, theorems=dict(po["theorems"], **po_b["theorems"]), obligations=po["obligations"] + po_b["obligations"], discharged=po["discharged"] + po_b["discharged"])
+    # C01b / C01c: the per-enumerator normal form is the same decoder (expand_decode); what `progeq = same` means for the translated
+    # Rust reader (reader_decodes_as_spec, reader_reads_canonical)
+    for mod_ in ("WowVerif.Thm.C01b", "WowVerif.Thm.C01c", "WowVerif.Thm.C01d"):
+        po_b = proof_obligations(mod_)
+        add_proof_failures(rep, po_b)
+        po = dict(po, theorems=dict(po["theorems"], **po_b["theorems"]), obligations=po["obligations"] + po_b["obligations"], discharged=po["discharged"] + po_b["discharged"])
     conts = build_corpus(expanded=True)
     # ---- code side, static: every generated Rust reader, translated on this run, must be the normal form of its definition
     import readertie
@@ -339,7 +342,7 @@ def run(tier, seed):
     covered = len({c["key"] for (c, _, _) in hmeta})
     rep.coverage = {
         "obligations": po["obligations"] + tie_cov["readers_compared"], "discharged": po["discharged"] + tie_cov["readers_equal_to_normal_form_of_definition"],
-        "checker_cmd": "cd /verif/lean && lake build WowVerif.Thm.C01 WowVerif.Thm.C01b && lake env lean WowVerif/Thm/C01.lean",
+        "checker_cmd": "cd /verif/lean && lake build WowVerif.Thm.C01 WowVerif.Thm.C01b WowVerif.Thm.C01c WowVerif.Thm.C01d && lake env lean WowVerif/Thm/C01d.lean",
         "trusted_base": TRUSTED_BASE_COMMON + ["tools/wowm.py + tools/corpus.py translate the wowm sources into the closed syntax of Model/Sem.lean (independent of wow_message_parser)",
                                                "framing of the generated bodies follows C02's header rules (python)",
                                                "tools/rust_codec.py translates the generated readers (read_inner / read) into the closed syntax: wire operations, loops and conditionals; NOT the value plumbing into the result, the size / allocation guards (C09 / C03), compressed readers or the hand-written readers of built-in types (`prim` leaves on both sides)"],
